@@ -142,6 +142,7 @@ func (cc *checkCtx) gather() {
 	primary := map[string]bool{}
 	for _, j := range jobs {
 		primary[j.key] = true
+		verified[j.key] = true
 	}
 	for round := 0; len(jobs) > 0 && round < 8; round++ {
 		results := make([]*FnResult, len(jobs))
